@@ -349,8 +349,15 @@ def run(prog, rep, tier):
             sbb, tgt = arm
             # stores to fields of self on the blocks only reachable through the arm edge
             latch_fields = set()
+            # blocks executed only when the error is the wrong-tag one: reachable from that arm, constant flags followed (`matches!(..)` goes through one),
+            # and not reachable the same way from the other arms of the same switch
+            si_ = switch_info(prog, rd, sbb)
+            others_ = {t_ for t_ in set(list(si_['arms'].values()) + [si_['otherwise']]) if t_ is not None and t_ != tgt} if si_ else set()
+            only_wrong = reachable_ps(rd, tgt)
+            for t_ in others_:
+                only_wrong = only_wrong - reachable_ps(rd, t_)
             for b in rd.blocks:
-                if b.cleanup or not rd.edge_dominates((sbb, tgt), b.idx) or b.idx not in rd.reachable(tgt):
+                if b.cleanup or b.idx not in only_wrong:
                     continue
                 for s in b.stmts:
                     if s.kind == 'assign' and s.place[0] == 1 and place_fields(s.place):
